@@ -283,6 +283,12 @@ func kRoundtrip(args []string) (string, string) {
 	if err != nil {
 		return "marshal-error", "VIOL roundtrip-marshal"
 	}
+	if d := writeFaultCheck(ser, func(w io.Writer) (int64, error) {
+		_, n, err := gowarc.NewMarshaler().Marshal(w, bres.rec, 0)
+		return n, err
+	}); d != "" {
+		return "marshal-fault-swallowed", "VIOL roundtrip-write-fault " + sanitize(d)
+	}
 	stream := &gowarc.VerifStream{Data: append(append([]byte{}, ser...), tail...)}
 	br := bufio.NewReaderSize(stream, 64)
 	prec, off, val, perr := gowarc.NewUnmarshaler(po.options()...).Unmarshal(br)
@@ -431,6 +437,16 @@ func genC02(r *rng, n int, tier string, emit func(string, ...string)) {
 				c.content = []byte(pick(sub, []string{"a: b\n", "via: http://example.com/\nhops: P\n", "k: v\r\n c\n", "nocolon\r\na: b\r\n", "a: b"}))
 			}
 			c.class = "arbitrary-content"
+		}
+		if i%60 == 7 {
+			// an http block that spills, with the spill threshold a whole number of read-buffer sizes (512 ... 32768) behind the
+			// end of the protocol header, or one byte beside it: where the part in memory ends exactly at the end of a read
+			head := "HTTP/1.1 200 OK\r\nContent-Type: text/plain\r\nX-Pad: " + strings.Repeat("p", sub.intn(40)) + "\r\n\r\n"
+			payload := sub.bytes(3*8192 + 77 + sub.intn(9000))
+			c = bcase{ver: "1.1", rt0: 2, class: "spill-boundary", content: append([]byte(head), payload...), hdr: [][2]string{
+				{"WARC-Date", "2020-01-02T03:04:05Z"}, {"WARC-Target-URI", "http://example.com/"}, {"Content-Type", "application/http;msgtype=response"}}}
+			o.maxMem = len(head) + pick(sub, []int{512, 4096, 8192, 16384, 24576, 32768}) + pick(sub, []int{-1, 0, 0, 0, 1})
+			o.skip = false
 		}
 		stat("build-class", c.class)
 		stat("build-content", strconv.Itoa(len(c.content)/50*50))
